@@ -543,8 +543,22 @@ func c15AscDesc(asc, desc []vValName) string {
 func genC15(t *rapid.T) c15Case {
 	vLongNameOneIn = 3
 	defer func() { vLongNameOneIn = 10 }()
-	layout := []string{"", "", "", "2006/01/02 %", "%d 2006-01-02 %s", "02.01.2006"}[rapid.IntRange(0, 5).Draw(t, "layout")]
+	layout := []string{"", "", "", "2006/01/02 %", "%d 2006-01-02 %s", "02.01.2006", "2006-01-02 15:04:05.000", "2006/01/02 15:04 MST"}[rapid.IntRange(0, 7).Draw(t, "layout")]
 	s := vGenScenario(t, vScenOpts{MinDays: 1, MaxDays: 4, MaxEntries: 5, DateLayout: layout, Paths: rapid.IntRange(0, 2).Draw(t, "paths") == 0, PathSegs: []string{"a", "b", "c", "dd", "e f", ".", "..", "ax"}, PathMax: 4})
+	if (layout == "2006-01-02 15:04:05.000" || layout == "2006/01/02 15:04 MST") && len(s.Days) == len(s.Log.Recs) {
+		// headings that differ only in what a coarser look does not see: the same second with another fraction, the
+		// same instant under another zone name; every record is shown under the heading it was written with
+		for i := range s.Log.Recs {
+			if i > 0 && rapid.Bool().Draw(t, "sameday") {
+				s.Days[i] = s.Days[i-1]
+			}
+			if layout == "2006-01-02 15:04:05.000" {
+				s.Log.Recs[i].Head = fmt.Sprintf("%s 08:15:30.%03d", vFmtDay(s.Days[i], "2006-01-02"), []int{250, 750, 0, 999, 251}[rapid.IntRange(0, 4).Draw(t, "frac")])
+			} else {
+				s.Log.Recs[i].Head = fmt.Sprintf("%s 08:15 %s", vFmtDay(s.Days[i], ""), []string{"CET", "EET", "UTC", "GMT", "WET", "MSK"}[rapid.IntRange(0, 5).Draw(t, "abbr")])
+			}
+		}
+	}
 	// two recipes whose name+quantity spell the same text when written without a separator
 	// ("b1" x 25 and "b12" x 5): any cache or index keyed by such a concatenation mixes them up
 	if rapid.IntRange(0, 4).Draw(t, "concat") == 0 && len(s.Log.Recs) > 0 {
@@ -564,7 +578,7 @@ func genC15(t *rapid.T) c15Case {
 		s.Log.Recs[j].Lines = append(s.Log.Recs[j].Lines, vLine{Kind: vkEntry, Name: n2, Num: rest, L: plain})
 		s.Log.NoFinalNL = false
 	}
-	if len(s.Log.Recs) > 0 && len(s.Days) == len(s.Log.Recs) && rapid.IntRange(0, 9).Draw(t, "zeroday") == 0 {
+	if layout != "2006-01-02 15:04:05.000" && layout != "2006/01/02 15:04 MST" && len(s.Log.Recs) > 0 && len(s.Days) == len(s.Log.Recs) && rapid.IntRange(0, 9).Draw(t, "zeroday") == 0 {
 		i := rapid.IntRange(0, len(s.Days)-1).Draw(t, "zerodayat")
 		s.Days[i] = vZeroDay
 		s.Log.Recs[i].Head = vFmtDay(vZeroDay, layout)
